@@ -86,13 +86,16 @@ def base58_decode(v: bytes) -> bytes:
     :returns: bytes
     """
     try:
-        prefix_len = next(
-            len(encoding[2]) for encoding in base58_encodings if len(v) == encoding[1] and v.startswith(encoding[0])
+        bin_prefix = next(
+            encoding[2] for encoding in base58_encodings if len(v) == encoding[1] and v.startswith(encoding[0])
         )
     except StopIteration as e:
         raise ValueError('Invalid encoding, prefix or length mismatch.') from e
 
-    return base58.b58decode_check(v)[prefix_len:]
+    decoded = base58.b58decode_check(v)
+    if not decoded.startswith(bin_prefix):
+        raise ValueError('Invalid encoding, binary prefix mismatch.')
+    return decoded[len(bin_prefix) :]
 
 
 def base58_encode(v: bytes, prefix: bytes) -> bytes:
